@@ -188,9 +188,10 @@ Proof. exact MultPegWitness.wit_link. Qed.
 Print Assumptions C02_nonvacuous_link.
 
 (* ---------------------------------------------------------------- end to end on the full object builder (Model/Build.v)
-   Build.pnode is the model of parse_tree_to_objgraph validated against textX by C01/C06.  tvals an kids = the values
-   process_node computes (vof) for the children of the assignment nodes of attribute an among the children `kids` of the
-   rule's NonTerminal, in input order (`=`: the first child; `?=`: True; `*=`/`+=`: the non-separator children).
+   Build.pnode is the model of parse_tree_to_objgraph validated against textX by C01/C06.  tvals ma kids = the values
+   process_node computes (vof) for the children of the assignment nodes of attribute ma among the children `kids` of the
+   rule's NonTerminal, in input order (`=`: the first child; `?=`: True; `*=`/`+=`: the non-separator children); for a
+   link attribute (`a=[Rule]`, `a+=[Rule]`) each value is the pending reference VRef name position class at that place.
    expected_val ma vs = the list vs for a many-valued attribute, else the single value (or the initial value when vs = []).
 
    Rule level, memoization off: for any parser-model table, oracle, input, state, fuel and enclosing object: if the rule
@@ -199,9 +200,9 @@ Print Assumptions C02_nonvacuous_link.
    attribute is many-valued iff maxcount >= 2; a single-valued attribute had at most one value matched.  (An object
    is built, so no 'Multiple assignments' was raised at this level.)
    Side conditions, all decidable and evaluated by the correspondence on the real tables/trees: asg_table_okb (every
-   __asgn node has a fitting PEG class), mult_agreesb (the dumped multiplicities are the inferred ones), kid_okb (children
-   of assignment nodes and the other children are trees of match/common rules or of abstract rules over such trees:
-   their value does not depend on the enclosing object). *)
+   __asgn node has a fitting PEG class), mult_agreesb (the dumped multiplicities are the inferred ones), Build.asg_placed
+   (assignment nodes occur only as direct children of common-rule nodes - the side condition C06 uses too - so the value
+   of every other tree does not depend on the enclosing object). *)
 Theorem C02_parsed_object_values :
   forall g mm input grp auto use_grp attr_id orc,
   MultBuild.asg_table_okb g mm = true ->
@@ -210,14 +211,14 @@ Theorem C02_parsed_object_values :
   Peg.parse g input orc false fuel nid psq s = Peg.Ok (Peg.RTree (Peg.NT nid kids)) s' ->
   Build.info mm nid = Build.IRule Build.RCommon cls attrs ->
   MultBuild.mult_agreesb attr_id b attrs = true ->
-  forallb (MultBuild.kid_okb mm) kids = true ->
+  forallb (Build.asg_placed mm true) kids = true ->
   Build.pnode g mm input grp auto use_grp (Peg.NT nid kids) top = Build.BOk (Build.VObj cls' p e vals, top') ->
   forall ma, Build.find_attr (Build.a_name ma) attrs = Some ma ->
     Build.get_val (Build.a_name ma) vals
-      = Some (MultBuild.expected_val auto ma (MultBuild.tvals g mm input grp auto use_grp (Build.a_name ma) kids))
+      = Some (MultBuild.expected_val auto ma (MultBuild.tvals g mm input grp auto use_grp ma kids))
     /\ (MultBuild.is_many (Build.a_mult ma) = true <-> 2 <= maxcount (attr_id (Build.a_name ma)) b)
     /\ (MultBuild.is_many (Build.a_mult ma) = false ->
-        length (MultBuild.tvals g mm input grp auto use_grp (Build.a_name ma) kids) <= 1).
+        length (MultBuild.tvals g mm input grp auto use_grp ma kids) <= 1).
 Proof. exact MultEndProofs.parsed_object_values. Qed.
 Print Assumptions C02_parsed_object_values.
 
@@ -232,10 +233,10 @@ Theorem C02_parsed_object_no_mult_assign :
   Peg.parse g input orc false fuel nid psq s = Peg.Ok (Peg.RTree (Peg.NT nid kids)) s' ->
   Build.info mm nid = Build.IRule Build.RCommon cls attrs ->
   MultBuild.mult_agreesb attr_id b attrs = true ->
-  forallb (MultBuild.kid_okb mm) kids = true ->
+  forallb (Build.asg_placed mm true) kids = true ->
   Build.pnode g mm input grp auto use_grp (Peg.NT nid kids) top = Build.BErr Build.ESem ->
   (exists k c', In k kids /\ Build.pnode g mm input grp auto use_grp k (Some c') = Build.BErr Build.ESem /\
-     (MultBuild.pureb mm k = true \/
+     (MultBuildProofs.not_asg mm k = true \/
       exists n' ks a o k0 c'', k = Peg.NT n' ks /\ Build.info mm n' = Build.IAsgn a o /\ In k0 ks /\
                                Build.pnode g mm input grp auto use_grp k0 (Some c'') = Build.BErr Build.ESem))
   \/ (exists c1, Build.each_loop (Build.pnode g mm input grp auto use_grp) kids
@@ -254,15 +255,15 @@ Theorem C02_run_object_values :
   MultPeg.den g mm attr_id true b nid = true -> grammar_ok b = true -> MultEndProofs.top_okb g nid = true ->
   Build.info mm nid = Build.IRule Build.RCommon cls attrs -> MultBuild.mult_agreesb attr_id b attrs = true ->
   Peg.run g cfg orc memo fuel input = Peg.Parsed r ->
-  (forall tp t rest, r = Peg.RTree (Peg.NT tp (t :: rest)) -> MultEndProofs.obj_tree_okb mm t = true) ->
+  (forall tp t rest, r = Peg.RTree (Peg.NT tp (t :: rest)) -> Build.asg_placed mm false t = true) ->
   Build.build g mm input grp auto use_grp r = Build.BOk (Build.VObj cls' p e vals) ->
   exists kids tp rest, r = Peg.RTree (Peg.NT tp (Peg.NT nid kids :: rest)) /\
   forall ma, Build.find_attr (Build.a_name ma) attrs = Some ma ->
     Build.get_val (Build.a_name ma) vals
-      = Some (MultBuild.expected_val auto ma (MultBuild.tvals g mm input grp auto use_grp (Build.a_name ma) kids))
+      = Some (MultBuild.expected_val auto ma (MultBuild.tvals g mm input grp auto use_grp ma kids))
     /\ (MultBuild.is_many (Build.a_mult ma) = true <-> 2 <= maxcount (attr_id (Build.a_name ma)) b)
     /\ (MultBuild.is_many (Build.a_mult ma) = false ->
-        length (MultBuild.tvals g mm input grp auto use_grp (Build.a_name ma) kids) <= 1).
+        length (MultBuild.tvals g mm input grp auto use_grp ma kids) <= 1).
 Proof. exact MultEndProofs.run_object_values. Qed.
 Print Assumptions C02_run_object_values.
 
@@ -276,7 +277,7 @@ Example C02_nonvacuous_end_to_end :
   /\ PegMemo.not_aborted (Peg.run MultPegWitness.wit_g MultPegWitness.wit_cfg (Peg.orc_of MultPegWitness.wit_tbl) false 50 MultPegWitness.wit_input)
   /\ exists r p e vals,
        Peg.run MultPegWitness.wit_g MultPegWitness.wit_cfg (Peg.orc_of MultPegWitness.wit_tbl) true 50 MultPegWitness.wit_input = Peg.Parsed r
-       /\ MultEndProofs.obj_tree_okb MultPegWitness.wit_mm (MultPegWitness.first_tree r) = true
+       /\ Build.asg_placed MultPegWitness.wit_mm false (MultPegWitness.first_tree r) = true
        /\ Build.build MultPegWitness.wit_g MultPegWitness.wit_mm MultPegWitness.wit_input MultPegWitness.wit_grp true false r
           = Build.BOk (Build.VObj [77;111;100;101;108]%N p e vals)
        /\ Build.get_val [97]%N vals
